@@ -138,7 +138,9 @@ theorem assoc_index_safe (idx : AExpr) : assocIndex idx ≠ .panic := by
 
 /-! ## panic-site table -/
 
-/-- Every explicit `panic(` call and every unchecked type assertion `x.(T)` in packages interp
+/-- Every explicit `panic(` call, every unchecked type assertion `x.(T)` and every shift `x << y`,
+    `x >> y`, `<<=`, `>>=` whose count is neither an integer literal nor a conversion to an unsigned
+    type (a potential "negative shift amount" panic) in packages interp
     and expand (regenerated from the working tree into `Gen.C28Sites.sites` on every run) is one
     of the reviewed sites of `Expect.C28Sites.expected`, and vice versa: a new site, or a site
     that moved to another function, breaks this obligation. -/
